@@ -1180,7 +1180,9 @@ def derived_scripts(t, v):
             out.append(([("loc",), ("emit", "emit_const_uint8", [("reg", "v"), ("u8", "trail")])],
                         {"v": w.get("v", 0), "trail": w.get("trail", 0)}))
     else:
-        for name, h in sorted(make_harnesses(t, "quick").items()):
+        # every forward-jump script of the thorough tier, short ones first (the 66000-byte ones reach the third
+        # byte of the offset field; the fourth byte would need 16 MiB of code and cannot be replayed)
+        for name, h in sorted(make_harnesses(t, "thorough").items(), key=lambda kv: len(kv[1][1])):
             if any(op[0] == "label" for op in h[1]):
                 out.append((h[1], dict(h[2]) if len(h) == 3 else {}))
     return out
@@ -1336,7 +1338,8 @@ def main2(tier):
     if missing and not rep.new and not rep.known_hit:
         raise Inconclusive("vacuity witnesses missing: " + ", ".join(missing[:8]))
     mir_fns = set(f.name for f in t.prog.order)
-    vac_summary = sorted(k for k in vac if k.startswith(("leb:", "fixed:")) or ":distance:" in k or k.endswith(":roundtrip"))
+    vac_summary = sorted(k for k in vac if k.startswith(("leb:", "fixed:", "seq-")) and (":distance:" in k or k.endswith(":roundtrip") or k.startswith(("leb:", "fixed:"))))
+    vac_summary.append("%d emitters with a reachable final assertion point" % sum(1 for k in vac if k.startswith("emit_") and k.endswith(":roundtrip")))
     nclass = sum(1 for k in vac if re.search(r":w\d$", k) and not k.startswith("leb:"))
     cov = {
         "obligations": obligations, "discharged": discharged,
@@ -1350,7 +1353,7 @@ def main2(tier):
         "native_replay_unavailable_for": not_runnable,
         "std_models_used": sorted(set(re.sub(r"visit_\w+", "visit_* (recording visitor = the consumer of reader::read)", m)
                                       for m in models_used if m not in mir_fns and norm_callee(m) not in mir_fns)),
-        "bounds": {"operands": "every register / constant-pool index / global id / const id a full symbolic u32 (5 LEB128 width classes each, forked by the writer's own loop); ConstUInt8 payload symbolic u8; constants symbolic (char, i32, i64, f32/f64 bit patterns, 2-byte strings)",
+        "bounds": {"operands": "every register / constant-pool index / global id / const id a full symbolic u32 (5 LEB128 width classes each, forked by the writer's own loop); ConstUInt8 payload symbolic u8; constants symbolic (char, i32, i64, f32/f64 bit patterns, 2-byte ASCII strings)",
                    "argument_lists": "0..3 symbolic registers" if tier == "thorough" else "2 symbolic registers (0..3 in the thorough tier)",
                    "constant_pool_prefill": "0 / 127 / 128 entries before a constant emitter" + (" (+16383/16384 for one emitter)" if tier == "thorough" else ""),
                    "sequences": "forward jumps over 1..%d symbolic one-register instructions + a concrete far filler (offset >= 300%s); JumpLoop over 0..%d symbolic fillers and at distance 128%s; switch with a 2-entry jump table"
